@@ -3,8 +3,10 @@ package checks
 import (
 	"strings"
 
-	"verif/harness/internal/obs"
+	"golang.org/x/net/html/atom"
+
 	"golang.org/x/net/html"
+	"verif/harness/internal/obs"
 )
 
 // whatwgScriptEnd is an independent transcription of the script-data states of the HTML standard's tokenizer
@@ -171,4 +173,29 @@ func markersIn(s string) []string {
 		out = append(out, s[i:i+j+2])
 		s = s[i+j+2:]
 	}
+}
+
+// markersInScriptStyleScriptingOff lists the markers that x/net's tree builder places inside a script / style
+// element under a noscript element when it parses the input the way a browser with scripting disabled does
+// (noscript content is markup then, not raw text).
+func markersInScriptStyleScriptingOff(in string) map[string]bool {
+	out := map[string]bool{}
+	if !strings.Contains(obs.ASCIILower(in), "<noscript") {
+		return out
+	}
+	for _, ctx := range []string{"body", "div"} {
+		c := &html.Node{Type: html.ElementNode, Data: ctx, DataAtom: atom.Lookup([]byte(ctx))}
+		ns, err := html.ParseFragmentWithOptions(strings.NewReader(in), c, html.ParseOptionEnableScripting(false))
+		if err != nil {
+			continue
+		}
+		obs.Walk(ns, func(n *html.Node) {
+			if n.Type == html.TextNode && obs.HasAncestor(n, "script", "style") && obs.HasAncestor(n, "noscript") {
+				for _, m := range markersIn(n.Data) {
+					out[m] = true
+				}
+			}
+		})
+	}
+	return out
 }
